@@ -8,6 +8,7 @@
 Core configuration classes and methods.
 """
 # pylint: disable=too-many-lines
+import copy
 import inspect
 import os
 import warnings
@@ -507,6 +508,11 @@ class Field(BaseField):
 
         if value is None:
             value = self.default
+            if isinstance(value, (list, dict, set, bytearray)):
+                # each configuration gets its own copy of a mutable declared default (a dict or
+                # list given to an AnyField, ...), which would otherwise be shared by every
+                # configuration of the schema and with the schema itself
+                value = copy.deepcopy(value)
 
         cfg._set_default_value(self._key, value)
 
